@@ -369,14 +369,99 @@ theorem writer_unavailable (m : String) (l : PyLevel) (c : CompressorEntry) (hz 
     writer ⟨some m, l⟩ = .error .valueError := by
   simp [writer, hz, hm, hl, hav]
 
-/-! ## Non-vacuity: the laws are satisfiable, the hypotheses of `roundtrip` are met by non-trivial instances -/
-
 /-- A toy environment: "pickle" = the start CPython prescribes + the payload, "compress" = magic + payload. -/
 def toyEnv : Env Bytes where
   pickle := fun p x => (if 2 ≤ p then [pickleProtoOpcode, p] else [78, 46]) ++ x
   unpickle := fun b => some (b.drop 2)
   compress := fun n _ b => ((lookup n).map (·.pfx)).getD [] ++ b
   decompress := fun n b => some (b.drop (((lookup n).map (·.pfx)).getD []).length)
+
+/-! ## open file objects with the cursor past 0 (header + dump, dumps back to back) -/
+
+/-- **Sniffing a buffered file does not move the cursor** and detects what is AT the cursor (`_partial`, F43:
+provided `peek` returned at least `max_prefix_len` bytes). -/
+theorem sniff_keeps_cursor_partial (file : Bytes) (pos peeked : Nat) (hp : maxPrefixLen ≤ peeked) :
+    sniff true peeked file pos = (detect (file.drop pos), pos) := by
+  unfold sniff detect
+  simp only [if_true, List.take_take, Nat.min_eq_left hp]
+
+/-- F43 witness (known finding): a buffered file whose read buffer holds ONE more byte when the gzip dump starts
+(an 8191-byte header under an 8192-byte buffer): `peek` returns `\x1f` only, the two-byte gzip magic is not
+recognised and the compressed stream is handed to the unpickler as if it were a pickle. -/
+theorem sniff_short_peek_counterexample :
+    sniff true 1 ([9, 9, 9] ++ [31, 139, 8, 0]) 3 = (.notCompressed, 3)
+    ∧ sniff true 2 ([9, 9, 9] ++ [31, 139, 8, 0]) 3 = (.method "gzip", 3) := by
+  decide
+
+/-- **load after dump at offset k, buffered files** (`_partial`: `peek` returned at least `max_prefix_len` bytes).
+For every header of every length `k` written before the dump, every object / compress argument / target /
+protocol that `dump` accepts: `load(f)` with the cursor at `k` returns the object. -/
+theorem load_after_dump_at_offset_partial {Obj : Type} (E : Env Obj) (L : Laws E) (x : Obj)
+    (compress : CompressArg) (filename : Target) (protocol : Nat) (hp : protocol ≤ pickleHighestProtocol)
+    (file header : Bytes) (hdump : dump E x compress filename protocol = .ok file) (nameAtLoad : String)
+    (peeked : Nat) (hpk : maxPrefixLen ≤ peeked) :
+    loadAt E true peeked nameAtLoad (header ++ file) header.length = some x := by
+  have hr := roundtrip E L x compress filename protocol hp file hdump nameAtLoad
+  have hd : (header ++ file).drop header.length = file := List.drop_left' rfl
+  unfold loadAt
+  rw [sniff_keeps_cursor_partial _ _ _ hpk, hd]
+  unfold load at hr
+  cases hdet : detect file with
+  | compat => rw [hdet] at hr; simp at hr
+  | method n => rw [hdet] at hr; simpa [hd] using hr
+  | notCompressed => rw [hdet] at hr; simpa [hd] using hr
+
+/-- **File objects without `peek` are rewound** (behaviour, intended — `io.BytesIO`, raw unbuffered files,
+wrappers): wherever the cursor is, after sniffing it is at byte 0; the magic number, however, is looked for where
+the cursor WAS. -/
+theorem sniff_peekless_rewinds (peeked : Nat) (file : Bytes) (pos : Nat) :
+    sniff false peeked file pos = (detect (file.drop pos), 0) := rfl
+
+/-- … so with the cursor at 0, `load` of a peek-less object holding one dump returns the object, for every
+compress argument / protocol `dump` accepts … -/
+theorem load_peekless_from_start {Obj : Type} (E : Env Obj) (L : Laws E) (x : Obj)
+    (compress : CompressArg) (filename : Target) (protocol : Nat) (hp : protocol ≤ pickleHighestProtocol)
+    (file : Bytes) (hdump : dump E x compress filename protocol = .ok file) (nameAtLoad : String) (peeked : Nat) :
+    loadAt E false peeked nameAtLoad file 0 = some x := by
+  have hr := roundtrip E L x compress filename protocol hp file hdump nameAtLoad
+  unfold loadAt sniff
+  simp only [Bool.false_eq_true, if_false, List.drop_zero]
+  unfold load at hr
+  cases hdet : detect file with
+  | compat => rw [hdet] at hr; simp at hr
+  | method n => rw [hdet] at hr; simpa using hr
+  | notCompressed => rw [hdet] at hr; simpa using hr
+
+/-- … and "dump; load WITHOUT rewinding" (`f = io.BytesIO(); dump(obj, f); load(f)`, the cursor at the end)
+returns the object when the dump is not compressed: nothing is read at the end of the object, nothing is
+detected, the object is rewound and the pickle at byte 0 is read. (With a compressed dump the same call hands
+compressed bytes to the unpickler — `load_peekless_compressed_needs_rewinding`.) -/
+theorem load_peekless_without_rewinding {Obj : Type} (E : Env Obj) (L : Laws E) (x : Obj)
+    (compress : CompressArg) (filename : Target) (protocol : Nat) (hp : protocol ≤ pickleHighestProtocol)
+    (hraw : dumpHeader compress filename = .ok .raw) (file : Bytes)
+    (hdump : dump E x compress filename protocol = .ok file) (nameAtLoad : String) (peeked : Nat) :
+    loadAt E false peeked nameAtLoad file file.length = some x := by
+  have hf : file = E.pickle protocol x := by
+    unfold dump at hdump
+    rw [hraw] at hdump
+    simp at hdump
+    exact hdump.symm
+  subst hf
+  unfold loadAt sniff
+  have hempty : detect ([] : Bytes) = .notCompressed := by decide
+  simp only [Bool.false_eq_true, if_false, List.drop_length, hempty, List.drop_zero]
+  exact L.unpickle_pickle protocol hp x
+
+/-- Behaviour witness: a zlib dump in a peek-less object with the cursor left at the end is NOT recognised as
+compressed (nothing to sniff there) and is unpickled as it is; from the start it loads. -/
+theorem load_peekless_compressed_needs_rewinding :
+    let file := toyEnv.compress "zlib" (some 3) (toyEnv.pickle 4 [7, 7])
+    sniff false 0 file file.length = (.notCompressed, 0)
+    ∧ loadAt toyEnv false 0 "f" file file.length ≠ some [7, 7]
+    ∧ loadAt toyEnv false 0 "f" file 0 = some [7, 7] := by
+  decide
+
+/-! ## Non-vacuity: the laws are satisfiable, the hypotheses of `roundtrip` are met by non-trivial instances -/
 
 example : Laws toyEnv where
   unpickle_pickle := by
